@@ -21,7 +21,14 @@ def run_impl(lines, timeout_ms=15000):
     import subprocess, threading
     def work(idx):
         todo = list(idx)
+        restarts = 0
         while todo:
+            if restarts > 1:
+                # hangs / crashes pile up (e.g. every multi-threaded bench hangs): the first ones are
+                # the observation, the rest of this shard is not run
+                for i in todo:
+                    res[i] = "NO-OUTPUT not run after repeated hangs or crashes of the runner"
+                break
             p = subprocess.Popen([vlib.SIMH, "bench", str(timeout_ms)], stdin=subprocess.PIPE, stdout=subprocess.PIPE,
                                  stderr=subprocess.DEVNULL, text=True)
             try:
@@ -38,6 +45,7 @@ def run_impl(lines, timeout_ms=15000):
                 # the runner died without reporting: blame the next case
                 res[todo[done]] = "CRASH"
                 done += 1
+            restarts += 1
             todo = todo[done:]
     ths = [threading.Thread(target=work, args=(list(range(s, len(lines), shards)),)) for s in range(shards)]
     for t in ths: t.start()
